@@ -27,10 +27,10 @@ ASSUMPTIONS = [
 ]
 BOUNDS = {'quick': {'existing': 'unset (+default, plain or with option words), 1 or 2 entries from 6 forms (incl. auto)', 'request': 'none / first word of an entry / a proper prefix of one / absent'},
           'thorough': {}}
-OUTSIDE = ['more than 2 existing entries', "'SocksPort auto' seen through TorConfig (it consults Tor's __SocksPort pseudo-option, whose answer under 'auto' is not modelled; the entry is covered through _create_socks_endpoint)", 'SOCKSPort lines whose unix path contains a space']
+OUTSIDE = ['more than 2 existing entries', "a lone 'SocksPort auto' seen through TorConfig (it consults Tor's __SocksPort pseudo-option, whose answer under 'auto' is not modelled; the entry is covered through _create_socks_endpoint)", 'SOCKSPort lines whose unix path contains a space']
 
 ENTRIES = ['9050', '9050 IsolateDestAddr IsolateDestPort', '127.0.0.1:9150 IPv6Traffic', 'unix:/tmp/socks', 'unix:/tmp/socks WorldWritable',
-           'auto']       # 'auto': Tor picked the port itself; GETCONF reports the word verbatim, so the entry cannot be used to connect
+           'auto', 'unix:/tmp/autostart/socks']       # 'auto': Tor picked the port itself; GETCONF reports the word verbatim, so the entry cannot be used to connect
 DEFAULT_LINE = '9150 IPv6Traffic PreferIPv6 KeepAliveIsolateSOCKSAuth'     # a torrc-defaults SocksPort line with option words
 REQUESTS = [None, '9050', '905', '9999', '127.0.0.1:9150', 'unix:/tmp/socks', '150']
 
@@ -57,7 +57,7 @@ def _ep_target(ep):
     return ('other', repr(ep))
 
 
-def _choose(existing, request, via_config, defl=False):
+def _choose(existing, request, via_config, defl=False, pending_edit=False):
     """defl (only with no explicit entries): Tor's built-in default line carries option words (config/defaults and __SocksPort report it)"""
     values = dict(INITIAL)
     values['SocksPort'] = list(existing) if existing else None
@@ -74,6 +74,8 @@ def _choose(existing, request, via_config, defl=False):
                 return 'harness: bootstrap failed %r' % (out.exc(),)
             if request is None:
                 assume(False)      # (None means socks_endpoint(); covered by the other entry point)
+            if pending_edit:
+                cfg.Nickname = 'notyetsaved'      # an unrelated edit the user has not saved yet
             n0 = len(tor.setconfs)
             if via_config == 2:
                 # the synchronous TorConfig.socks_endpoint(): only ever uses what Tor already has
@@ -119,8 +121,9 @@ def _choose(existing, request, via_config, defl=False):
         keys = [k.lower() for k, _v in sent[0]]
         vals = [v for _k, v in sent[0]]
         new = request if request is not None else '4711'
-        if any(k != 'socksport' for k in keys):
+        if any(k != 'socksport' for k in keys) and not pending_edit:
             return R('SETCONF-touches-other-options', '%r', sent[0])
+        vals = [v for k, v in sent[0] if k.lower() == 'socksport']
         if vals != effective + [new]:
             return R('existing-SOCKSPort-entries-not-relisted-verbatim', 'tor had %r, SETCONF lists %r', effective, vals)
         if got != _target(new):
@@ -134,7 +137,7 @@ _EX = [()] + [(a,) for a in range(_NE)] + [(a, b) for a in range(_NE) for b in r
 
 
 @cond(quick=dict(parts=[{'via_config': v} for v in (0, 1, 2)], budget=150))
-def c18_choose(ex: int, rq: int, via_config: int, defl: bool) -> str:
+def c18_choose(ex: int, rq: int, via_config: int, defl: bool, pending_edit: bool) -> str:
     """existing SOCKSPort configuration ex (index into the table of 0/1/2-entry configurations) x request rq, through
     _create_socks_endpoint (via_config 0), TorConfig.create_socks_endpoint (1) or the synchronous TorConfig.socks_endpoint (2)"""
     ex = api.pick(ex, 0, len(_EX) - 1)
@@ -142,10 +145,12 @@ def c18_choose(ex: int, rq: int, via_config: int, defl: bool) -> str:
     if ex != 0:
         assume(not defl)
     if via_config != 0:
-        # TorConfig reads an 'auto' SocksPort through Tor's __SocksPort pseudo-option; what Tor answers there is not modelled (OUTSIDE)
-        assume(all(ENTRIES[i] != 'auto' for i in _EX[ex]))
+        # TorConfig reads a lone 'auto' SocksPort through Tor's __SocksPort pseudo-option; what Tor answers there is not modelled (OUTSIDE)
+        assume([ENTRIES[i] for i in _EX[ex]] != ['auto'])
+    if via_config != 1:
+        assume(not pending_edit)
     with api.no_tracing():      # every choice is concrete by now
-        return _choose([ENTRIES[i] for i in _EX[ex]], REQUESTS[rq], via_config, True if defl else False)
+        return _choose([ENTRIES[i] for i in _EX[ex]], REQUESTS[rq], via_config, True if defl else False, True if pending_edit else False)
 
 
 # ------------------------------------------------------------------ fallback
